@@ -89,6 +89,13 @@ func pick[T any](r *rand.Rand, xs []T) T { return xs[r.Intn(len(xs))] }
 
 // RandomGenesis: amounts at 0, 1, mid and (in `big` cases) near 2^64; small deferred-action windows so
 // that unstaking / max-pause fire within a dozen blocks.
+// AddPool lists a pool in the genesis unless the id is listed already
+func (g *Genesis) AddPool(id, amount uint64) {
+	if !hasPool(g, id) {
+		g.Pools = append(g.Pools, GenPool{Id: id, Amount: amount})
+	}
+}
+
 func hasPool(g *Genesis, id uint64) bool {
 	for _, p := range g.Pools {
 		if p.Id == id {
